@@ -120,6 +120,10 @@ def task(R, item):
                     R.ob("C01b-entry-feeds-window", "%s|%s|window" % (otag, nm), got_c == want_c and got_p == want_p,
                          "%s addresses columns %s / pages %s; the clipped rectangle's corners with the orientation's offsets are %s / %s"
                          % (nm, got_c, got_p, want_c, want_p), sample={"entry": nm, "orientation": [q * 90, m], "caset": [repr(v) for v in got_c]})
+                    # (intersection is symmetric: either operand may be the logical bounds, the other the caller's rectangle)
+                    if not (bb[0] == ZERO and bb[1] == ZERO and bb[2] == g.lw and bb[3] == g.lh) and \
+                            (aa[0] == ZERO and aa[1] == ZERO and aa[2] == g.lw and aa[3] == g.lh):
+                        aa, bb = bb, aa
                     bbok = bb[0] == ZERO and bb[1] == ZERO and bb[2] == g.lw and bb[3] == g.lh
                     areaok = all(("area" in repr(v)) for v in aa)
                     R.ob("C01b-clips-against-logical-bounds", "%s|%s|clip" % (otag, nm), bbok and areaok,
